@@ -1,1 +1,2 @@
 import Setproto.Set
+import Setproto.Set32
